@@ -177,7 +177,10 @@ Definition changeTimelineTimescale (oldTS newTS : Z) (stl : list sentry) : list 
 
 (** *** changeTimelineTimescale after the repair C12-timeline-timescale-boundaries: every segment
     boundary is converted on its own, the durations are the differences, equal durations are
-    run-length compressed. The correspondence uses this variant when the source has it. *)
+    run-length compressed (applied as 5988c8b). The correspondence uses this variant when the source
+    has it. S elements with r < 0 (open-ended repeat) are passed on by the code as one converted S with
+    the same r; they are not modelled here (they vanish): the generated video timelines never contain
+    them and the correspondence generates none. *)
 (** timeline as segments: (reset, start, duration); reset = the S element carries t *)
 Definition tseg := (bool * Z * Z)%type.
 
